@@ -582,7 +582,7 @@ loop
                 redirections <= self.base_settings.max_redirections, // id: at_most_max_redirections_followed [C09]
                 self.sp_settings() == old(self).sp_settings(), self.sp_method() == old(self).sp_method(), // id: method_and_settings_identical_on_every_hop [C10]
                 self.sp_body().octets() == old(self).sp_body().octets(), self.sp_body().kind_spec() == old(self).sp_body().kind_spec(), // id: body_identical_on_every_hop [C10]
-                forall|o: Seq<u8>| o != host_name() ==> #[trigger] field_vals(&self.headers, o) == field_vals(&old(self).headers, o), // id: callers_header_fields_preserved_on_every_hop [C10]
+                forall|o: Seq<u8>| o != host_name() ==> #[trigger] field_vals(&self.headers, o) == field_vals(&old(self).headers, o), // id: callers_header_fields_preserved_on_every_hop [C10,C12]
                 old(self).sp_settings().max_redirections < u32::MAX,
             decreases self.base_settings.max_redirections - redirections, // id: each_followed_redirect_uses_up_budget [C09,C05]
 //@@ splice before_stmt
